@@ -416,8 +416,11 @@ Fixpoint string_loop (fuel : nat) (s : sbuf) (w : nat) : outcome (sbuf * nat) :=
 Definition scan_string (s : sbuf) : outcome (list N * sbuf) :=
   do _ <- require_token s;
   do s <- trim_to s (start s);
+  let is_quoted := match scat s with CQuo => true | _ => false end in
   do s <- char_loop (fuel_of s) s;
-  do sw <- string_loop (fuel_of s) s (start s);
+  let w0 := if string_drops_quote && is_quoted && (match scat s with CNone => true | _ => false end)
+            then pred (start s) else start s in
+  do sw <- string_loop (fuel_of s) s w0;
   do s <- next_item (fst sw);
   split_to s (snd sw).
 
